@@ -111,3 +111,46 @@ Theorem C01_other_group_poll_keeps_registration :
   blk g <> b -> K b t w -> K b t (snd (poll_group P mrg g t' w)).
 Proof. exact K_poll_group_other. Qed.
 Print Assumptions C01_other_group_poll_keeps_registration.
+
+(** ** Level B: every interleaving of the shared-memory steps of any number of waker calls with
+    the steps of the polling thread (ConcWake.v; the step lists are tied to the source text by
+    the generated lemma ProtocolInst.protocol_ok).  For every budget [B]: whenever the last poll
+    returned Pending and its task waker has not been invoked, that waker is still registered
+    and every child that was woken (or pushed) since its own last poll began has a waker call
+    in flight that has not yet executed its notify step. *)
+From FB Require Import ConcWake.
+
+Theorem C01_every_interleaving_pending_never_loses_a_wake :
+  forall (B : nat) (s : st),
+  reachable B s -> pp s = PIdle RPending -> woken s = false ->
+  reg s = Some (cur s) /\ forall i, armed s i = true -> in_flight s.
+Proof. exact pending_never_loses_a_wake. Qed.
+Print Assumptions C01_every_interleaving_pending_never_loses_a_wake.
+
+(** ... so once no waker call is in flight, Pending with an armed child means the task waker of
+    the most recent poll was invoked *)
+Theorem C01_every_interleaving_quiescent :
+  forall (B : nat) (s : st) (i : nat),
+  reachable B s -> pp s = PIdle RPending -> ~ in_flight s -> armed s i = true -> woken s = true.
+Proof. exact quiescent_pending_means_woken. Qed.
+Print Assumptions C01_every_interleaving_quiescent.
+
+(** the notify step of a call in flight during or after a poll that has not been woken finds
+    the waker of the most recent register, and invokes it *)
+Theorem C01_every_interleaving_notify_reaches_the_latest_waker :
+  forall (B : nat) (s : st) (t i : nat),
+  reachable B s -> claims (pp s) -> woken s = false -> nth_error (ws s) t = Some (i, WNotify) ->
+  forall s', s' = {| flag := flag s; armed := armed s; Q := Q s; reg := None; cur := cur s;
+                     woken := (match reg s with Some _ => true | None => woken s end);
+                     ws := upd (ws s) t (i, WDone); pp := pp s |} ->
+  step B s s' /\ woken s' = true /\ reg s = Some (cur s).
+Proof. exact in_flight_notify_reaches_current_waker. Qed.
+Print Assumptions C01_every_interleaving_notify_reaches_the_latest_waker.
+
+(** a slot is in the ready queue at most once, and only while its flag is set — under every
+    interleaving *)
+Theorem C01_every_interleaving_queued_at_most_once :
+  forall (B : nat) (s : st) (i : nat),
+  reachable B s -> qcount i (Q s) <= 1 /\ (0 < qcount i (Q s) -> flag s i = true).
+Proof. exact queued_at_most_once. Qed.
+Print Assumptions C01_every_interleaving_queued_at_most_once.
